@@ -54,7 +54,10 @@ def gen_case(rng, tier, index):
         # outer axes run the non-local pipeline, which has recorded crashes on ragged data (F10): capped stream
         axis = ops.gen_axis(rng, T, wild=0.03)
     op = {"op": "reduce", "name": name, "axis": axis, "mask": rng.random() < 0.5, "keepdims": rng.random() < 0.3}
-    return {"T": T, "layout": d, "op": op}
+    case = {"T": T, "layout": d, "op": op}
+    if index % 9 == 8 and index % 16 != 0 and cfg.dtypes is DT["plain"]:
+        case["lane"] = "P"        # the same case through ak.sum / ak.min / ... (src/awkward/operations/reducers.py)
+    return case
 
 
 def _leaf(T):
@@ -72,8 +75,12 @@ def run_case(ctx, case):
     hi = gen.depth_of(T)[1]
     dtype = _leaf(T)
     lk = oracles.LeafKind(dtype)
-    h = b.build(d)
-    out = ops.run_op(b, h, op)
+    if case.get("lane") == "P":
+        out = _run_python(ctx, d, op)
+        ctx.cover("lane", "P")
+    else:
+        h = b.build(d)
+        out = ops.run_op(b, h, op)
     k = op["axis"] if op["axis"] >= 0 else hi + op["axis"]
     ctx.cover("reducer", op["name"])
     ctx.cover("reducer_x_leafkind", "%s/%s" % (op["name"], lk.kind))
@@ -90,6 +97,17 @@ def run_case(ctx, case):
     cc.compare(ctx, case, out, lambda: oracles.reduce(v, op["name"], op["axis"], op["mask"], op["keepdims"], hi, lk),
                rel=rel, refusal_required=False)
     ctx.sample({"type": gen.typestr(T), "op": op, "input": model.brief(v, 200), "out": out.brief()})
+
+
+def _run_python(ctx, d, op):
+    from vlib import lanep_util
+    ak, P = lanep_util.setup(ctx)
+    fn = getattr(ak, op["name"])
+    try:
+        r = fn(P.array(d), axis=op["axis"], keepdims=op["keepdims"], mask_identity=op["mask"])
+        return ops.Outcome("value", P.value(r), None, None)
+    except Exception as e:     # noqa
+        return ops.Outcome("error", err=type(e).__name__, msg=" ".join(str(e).split())[:300])
 
 
 def classify(vio):
